@@ -91,6 +91,22 @@ def mentions_transcendental(t):
     return False
 
 
+def mentions_opaque(terms):
+    seen, stack = set(), list(terms)
+    while stack:
+        x = stack.pop()
+        if x.get_id() in seen:
+            continue
+        seen.add(x.get_id())
+        if z3.is_const(x) and x.decl().kind() == z3.Z3_OP_UNINTERPRETED and x.decl().name().startswith('opaque.'):
+            return True
+        if z3.is_quantifier(x):
+            stack.append(x.body())
+        else:
+            stack.extend(x.children())
+    return False
+
+
 def solve_quantified(conds, goal, timeout_ms, bigsums=()):
     """Goals over abstract sequences: plain SMT with quantifier instantiation; sums get their extensionality facts first.
     First attempt without the quantified axiom instances of cos/sin/... (dropping assumptions is sound for a proof and
@@ -562,6 +578,11 @@ class Engine:
                 any_failed = any(x['status'] == 'failed' for x in oblig.values())
                 budget = timeout_ms if not (any_failed or spent_unknown >= 3) else min(timeout_ms, 1000)
                 st, model, ms, be = solve_goal(conds, goal, budget, getattr(rec, 'bigsums', ()))
+                if st == 'sat' and mentions_opaque(list(conds) + [goal]):
+                    # the "counter-model" chooses the outcome of a comparison with an unmodelled library value: that is no verdict
+                    st, be = 'unknown', be + ' (depends on an unmodelled library value)'
+                    if 'obligation depends on an unmodelled library value (comparison with an opaque result)' not in out['notes']:
+                        out['notes'].append('obligation depends on an unmodelled library value (comparison with an opaque result)')
                 if st == 'sat':
                     lens = [t['len'] for kind, t in rec.leaves.values() if kind == 'list']
                     for bound in (2, 4):
